@@ -7,6 +7,7 @@
     text_roundtrip_xml_partial attr_roundtrip_xml_partial
     reread_nostrip reread_strip strip_commutes_escape site_yields_plain markup_add_escapes
     structure_preserved_partial render_stream_ok hole_is_data emit_both_implementations markup_format_site
+    payload_is_data
     attrs_site_partial attrs_site_none_removes attrs_site_others_untouched attrs_blank_dropped
     script_text_is_raw div_text_is_escaped attr_name_not_escaped pre_keeps_whitespace div_normalises_whitespace
     text_cr_not_recovered_xml attr_lf_not_recovered_xml control_char_not_wellformed_xml
@@ -15,6 +16,7 @@ import Genshi.Lemmas.Subst
 import Genshi.Lemmas.SubstTmpl
 import Genshi.Lemmas.SubstAttrs
 import Genshi.Lemmas.SubstFmt
+import Genshi.Lemmas.SubstNonInt
 namespace Genshi.Props.C01
 open Genshi.Escape Genshi.Str Genshi.Subst
 
@@ -514,6 +516,34 @@ theorem emit_both_implementations (m : Method) (v : List Char) :
     (escapeCBytes false (utf8 v)).1 = utf8 (emitText m v) ∧
     (escapeCBytes true (utf8 v)).1 = utf8 (emitAttr v) :=
   ⟨Genshi.Props.C18.escapeC_eq_escapePy false v, Genshi.Props.C18.escapeC_eq_escapePy true v⟩
+
+/-- **Template data cannot change the structure** (non-interference).  Replace the text of
+    every value that is not marked safe — every `str`, the `__str__` of every object, in the
+    environment and in the template's context values — by anything at all (`retext f`: the
+    lengths of sequences, `None`-ness and the kinds of values stay): the elements, their order
+    and nesting, and their attribute *names*, as re-read from the rendered output, are the same.
+    (`tagsOf` erases character data and attribute values.)
+    Hypotheses: those of `structure_preserved_partial`, and `KeepsBlank f` — `f` does not make a
+    `py:attrs` value blank or non-blank (the one place where the text of a value decides whether
+    an attribute exists: finding C01-attrs-blank-dropped). -/
+theorem payload_is_data (m : Method) (strip : Bool) (T : List Node) (env : Env) (f : List Char → List Char)
+    (hT : nodesOkB m T = true) (hdom : listOk env T = true) (henv : EnvOk env) (hf : KeepsBlank f) :
+    ∃ out out',
+      readDoc m (serialize m strip (renderList env T)) = some out ∧
+      readDoc m (serialize m strip (renderList (env.map (·.retext f)) (Node.retextList f T))) = some out' ∧
+      tagsOf out' = tagsOf out := by
+  have h1 := structure_preserved_partial m strip T env hT hdom henv
+  have h2 := structure_preserved_partial m strip (Node.retextList f T) (env.map (·.retext f))
+    (by rw [nodesOkB_retext]; exact hT) (by rw [listOk_retext]; exact hdom) (envOk_retext f env henv)
+  refine ⟨_, _, h1, h2, ?_⟩
+  have hsk := list_skel f hf T env
+  cases strip with
+  | false =>
+    simp only [Bool.false_eq_true, ↓reduceIte, tagsOf_coalesce]
+    simp only [tagsOf, hsk]
+  | true =>
+    simp only [↓reduceIte, tagsOf_coalesceStrip]
+    simp only [tagsOf, hsk]
 
 /-- The rendered stream of a template of the grammar is always one the serializer / reader
     theorems apply to, and its START / END skeleton is the template's. -/
